@@ -672,6 +672,8 @@ def b_min(ip, st, *args, **kw):
         if _all_conc(xs):
             return min(xs)
         raise Unsupported("min of symbolic tuples")
+    if len(xs) == 1:
+        return xs[0]  # min([x]) is x (as in b_max)
     return imin(*xs)
 
 
@@ -688,6 +690,8 @@ def b_max(ip, st, *args, **kw):
         _raise(ValueError, "max() arg is an empty sequence")
     if any(x is None for x in xs):
         _raise(TypeError, "'>' not supported between NoneType and int")
+    if len(xs) == 1:
+        return xs[0]  # max([x]) is x (values.imax with ONE argument takes it for the sequence to maximise)
     return imax(*xs)
 
 
